@@ -1,10 +1,45 @@
 (* operation names of the line protocol -> constructors of the extracted model *)
 open Model
-let op_of_string (s : string) : (op * [`Hex | `Str]) option =
-  match s with
-  | "add" -> Some (OAdd, `Hex) | "sub" -> Some (OSub, `Hex) | "mul" -> Some (OMul, `Hex)
-  | "div" -> Some (ODiv, `Hex) | "sqrt" -> Some (OSqrt, `Hex) | "fma" -> Some (OFma, `Hex)
+let z = Zhex.z_of_int
+
+let to_int_op (s : string) : op option =
+  (* to_<i32|u32|i64|u64>_<x?><rnint|floor|ceil|int|rninta> *)
+  match String.split_on_char '_' s with
+  | ["to"; ty; kind] ->
+    let (w, sg) = (match ty with "i32" -> (32, true) | "u32" -> (32, false) | "i64" -> (64, true) | "u64" -> (64, false) | _ -> (0, false)) in
+    let (xf, k) = if String.length kind > 1 && kind.[0] = 'x' then (true, String.sub kind 1 (String.length kind - 1)) else (false, kind) in
+    let m = (match k with "rnint" -> Some RNE | "floor" -> Some RDN | "ceil" -> Some RUP | "int" -> Some RTZ | "rninta" -> Some RNA | _ -> None) in
+    (match m with Some m when w > 0 -> Some (OToInt (z w, sg, m, xf)) | _ -> None)
   | _ -> None
+
+let op_of_string (s : string) : (op * [`Hex | `Str]) option =
+  let h o = Some (o, `Hex) and st o = Some (o, `Str) in
+  match s with
+  | "add" -> h OAdd | "sub" -> h OSub | "mul" -> h OMul | "div" -> h ODiv | "sqrt" -> h OSqrt | "fma" -> h OFma
+  | "quantize" -> h OQuantize | "rem" -> h ORem | "fmod" -> h OFmod | "fdim" -> h OFdim
+  | "rint" -> h ORint | "nearbyint" -> h ONearbyint
+  | "rint_ne" -> h (ORintFix RNE) | "rint_na" -> h (ORintFix RNA) | "rint_dn" -> h (ORintFix RDN)
+  | "rint_up" -> h (ORintFix RUP) | "rint_tz" -> h (ORintFix RTZ)
+  | "modf" -> h OModf | "frexp" -> h OFrexp
+  | "nextup" -> h ONextUp | "nextdown" -> h ONextDown | "nextafter" -> h ONextAfter | "nexttoward" -> h ONextAfter
+  | "minnum" -> h (OMinMax MinNum) | "maxnum" -> h (OMinMax MaxNum) | "minmag" -> h (OMinMax MinMag) | "maxmag" -> h (OMinMax MaxMag)
+  | "scaleb" -> h (OScaleb (z 32)) | "ldexp" -> h (OScaleb (z 32)) | "scalebln" -> h (OScaleb (z 64))
+  | "logb" -> h OLogb | "ilogb" -> h OIlogb | "quantexp" -> h OQuantexp | "llquantexp" -> h OLlquantexp
+  | "quantum" -> h OQuantum | "samequantum" -> h OSameQuantum
+  | "totalorder" -> h OTotalOrder | "totalordermag" -> h OTotalOrderMag
+  | "class" -> h OClass | "isx" -> h OIsx | "abs" -> h OAbs | "neg" -> h ONeg | "copy" -> h OCopy | "copysign" -> h OCopySign
+  | "encode" -> h OEncodeDpd | "decode" -> h ODecodeDpd
+  | "from_f32" -> h (OFromBin (z 8, z 23, true)) | "from_f64" -> h (OFromBin (z 11, z 52, true))
+  | "fromf32_t" -> h (OFromBin (z 8, z 23, false)) | "fromf64_t" -> h (OFromBin (z 11, z 52, false))
+  | "from_i32" -> h (OFromInt (z 32, true)) | "from_u32" -> h (OFromInt (z 32, false))
+  | "from_i64" -> h (OFromInt (z 64, true)) | "from_u64" -> h (OFromInt (z 64, false))
+  | "lrint" -> h OLrint | "llrint" -> h OLrint | "lround" -> h OLround | "llround" -> h OLround
+  | "cmp" -> h OCmp | "ops" -> h OOps | "hasheq" -> h OHashEq | "hashset" -> h OHashSet
+  | "parse" -> st OParse | "fromstr" -> st OFromStr | "fromstr2" -> st OFromStr2 | "fmt" -> h OFmt
+  | "o_add" -> h (OOpArith OAdd) | "o_sub" -> h (OOpArith OSub) | "o_mul" -> h (OOpArith OMul)
+  | "o_div" -> h (OOpArith ODiv) | "o_rem" -> h (OOpArith ORem) | "o_neg" -> h OOpNeg
+  | "sum" -> h OSum | "product" -> h OProduct
+  | _ -> (match to_int_op s with Some o -> h o | None -> None)
 
 (* output tokens: hex numbers; "ok"/"err" of Result-returning entry points; "-" = empty string *)
 let out_token (t : string) : z =
